@@ -13,6 +13,22 @@ COMMON_NOTE = ("Trusted: Lean 4.33.0 kernel; axioms per theorem as printed by #p
 
 # property id -> dict(level, text, technique, note, design_ref)
 CLAIMED = {
+    "C08": dict(
+        level="proof",
+        text="Lean theorems: steps_bounded / work_bounded (with a ranking certificate accepted by the executable rankOk, any control-flow "
+             "path of a block has at most (counters+1)*(R+1) instructions: the loop counter lies on every cycle, so an activation's own work "
+             "is bounded by the loop-iteration limit), counterRun_spec (exactly limit+1 counter passes succeed per activation), "
+             "loop_unaffected_pre/post, loop_stopped_pre/post, loop_work_bounded (for both lowered loop shapes: a loop under the limit "
+             "runs unchanged, one over it is stopped, bodies run <= limit+2 whatever it wanted), limit_unstoppable (for ANY nesting of call "
+             "routes, catch blocks, finally blocks and continuations around the point where a limit is hit, the whole evaluation ends with "
+             "the error and nothing after that point contributes output), nest_unaffected / nest_stopped / leave_enter (recursion-depth "
+             "accounting of check_runtime_limits over direct and native re-entry routes; the budget is returned on every exit). The ranking "
+             "check runs on every block the compiler emits for a loop corpus (8 loop heads x 11 ways round the loop x 5 activation kinds) "
+             "and generated programs; the dynamic model is tied to the engine by predicted-vs-real trace and completion over a grid of "
+             "limits, 37 re-entry routes, wrappers and budget-return sequences.",
+        technique="Lean 4 proofs (ranking certificate for loop-counter coverage; induction over loop/behaviour/nesting models) + ranking check on every compiled block + model-predicted vs real traces over a grid of limits and re-entry routes",
+        note="Stack-size threshold is exercised but not modelled; modules and host-defined job queues are not covered; needs the boa_verif dump hook for the static part.",
+    ),
     "C03": dict(
         level="proof",
         text="Lean theorems about an abstract machine over dumped code blocks (state = address x depths of value stack above the "
